@@ -241,6 +241,10 @@ impl Property for C14 {
         v.push(Stream::new("seed-programs-bom-line-ending-whitespace-variants", strings::file_variant_count(), true, |i| {
             format!("s:{}", strings::file_variant_case(i))
         }));
+        {
+            let th = matches!(tier, Tier::Thorough);
+            v.push(Stream::new("repeated-fragments-across-size-boundaries", strings::repeated_count(th), true, move |i| format!("s:{}", strings::repeated_case(i, th))));
+        }
         let nmut = tier.pick(20_000, 1_000_000);
         v.push(Stream::new("mutated-programs", nmut, false, move |i| {
             let mut r = Rng::new(mix(&[seed, 0x1401, i]));
